@@ -105,6 +105,16 @@ func (c *evalCtx) call(e *Expr) (tval, error) {
 			return tval{t: IVal(x.t), ty: ty}, nil
 		}
 		return tval{t: IVal(x.t), ty: ty, addr: true}, nil
+	case "deref": // deref(p): the value stored at pointer p
+		x, err := c.eval(e.Args[0])
+		if err != nil {
+			return tval{}, err
+		}
+		p, ok := x.ty.Underlying().(*types.Pointer)
+		if !ok {
+			return tval{}, fmt.Errorf("deref of non-pointer %s", x.ty)
+		}
+		return c.rvalue(tval{t: x.t, ty: p.Elem(), addr: true}), nil
 	case "zero":
 		ty, err := c.resolveType(e.Args[0].Name)
 		if err != nil {
